@@ -151,6 +151,12 @@ func (j *jsonBuilder) flattenObject(value *astjson.Value, path ast.Path) ([]*ast
 		return []*astjson.Value{value}, nil
 	}
 
+	// A null value on the path has no nested values to merge into: the resolver
+	// was not invoked for it (there is no context element for a null parent).
+	if value == nil || value.Type() == astjson.TypeNull {
+		return nil, nil
+	}
+
 	segment := path[0]
 	current := value.Get(segment.FieldName.String())
 	if current == nil {
@@ -159,6 +165,8 @@ func (j *jsonBuilder) flattenObject(value *astjson.Value, path ast.Path) ([]*ast
 
 	result := make([]*astjson.Value, 0)
 	switch current.Type() {
+	case astjson.TypeNull:
+		return nil, nil
 	case astjson.TypeObject:
 		values, err := j.flattenObject(current, path[1:])
 		if err != nil {
